@@ -211,6 +211,22 @@ func (f *Flat) ErrStatesFrom(A int, E types.Object) ErrStates {
 					}
 					continue
 				}
+				// the helper returns while its own error variable is non-nil, and gives its caller another,
+				// certainly non-nil error in its place (return ErrNoFreeSpace after the retries): the failure is
+				// reported under another name, the helper's variable does not live on in the caller
+				if ii, ok := f.Inl[n.ID]; ok && n.Synth == "result" {
+					if callee := f.P.Funcs[ii.Callee]; callee != nil && callee.Decl != nil && carrier.Pos() >= callee.Decl.Pos() && carrier.Pos() <= callee.Decl.End() {
+						replaced := false
+						for i, rhs := range as.Rhs {
+							if y := objOf(info, as.Lhs[i]); y != nil && isErrorType(y.Type()) && certainlyNonNilError(info, rhs) {
+								replaced = true
+							}
+						}
+						if replaced {
+							continue
+						}
+					}
+				}
 			}
 			kill := false
 			for _, o := range assignedObjs(info, n.Ast) {
@@ -481,4 +497,27 @@ func eval3(info *types.Info, e ast.Expr, E types.Object, w string) (mayTrue, may
 		t, f = f, t
 	}
 	return t, f
+}
+
+// certainlyNonNilError: a sentinel (package-level error variable), a freshly built error, a literal or an address.
+func certainlyNonNilError(info *types.Info, e ast.Expr) bool {
+	switch x := ast.Unparen(e).(type) {
+	case *ast.Ident, *ast.SelectorExpr:
+		var id *ast.Ident
+		if i, ok := x.(*ast.Ident); ok {
+			id = i
+		} else {
+			id = x.(*ast.SelectorExpr).Sel
+		}
+		if v, ok := info.Uses[id].(*types.Var); ok && !v.IsField() && v.Pkg() != nil && v.Parent() == v.Pkg().Scope() && isErrorType(v.Type()) {
+			return true
+		}
+	case *ast.CallExpr:
+		return isFunc(info, x, "fmt", "Errorf") || isFunc(info, x, "errors", "New") || isFunc(info, x, "errors", "Join")
+	case *ast.CompositeLit:
+		return true
+	case *ast.UnaryExpr:
+		return x.Op == token.AND
+	}
+	return false
 }
